@@ -29,7 +29,7 @@ def build_and_demo(demo_c, tag):
     c = sh('gcc -O1 ' + cf + (' -I%s/include -DPOLYSEED_STATIC %s %s/libpolyseed.a -lutf8proc -lpthread -lm ' % (WT, demo_c, b)) + os.environ.get('SEED_LDFLAGS', '') + ' -o ' + exe)
     if c.returncode: return {'build': 'ok', 'suite_passes': suite, 'demo': 'COMPILE FAILED', 'log': c.stderr[-800:]}
     try:
-        d = subprocess.run([exe], capture_output=True, text=True, timeout=300)
+        d = subprocess.run([exe], capture_output=True, text=True, errors='replace', timeout=300)
         rc, out = d.returncode, (d.stdout + d.stderr)[-600:]
     except subprocess.TimeoutExpired:
         rc, out = -9, 'timeout'
